@@ -714,6 +714,26 @@ type assocData struct {
 	livePet   map[int64]int64   // owner -> live pet id (0 none)
 	liveTags  map[int64][]int64
 	liveBoss  map[int64]int64 // item id -> live boss id (0 = boss soft-deleted or absent)
+	// Marks: links of the soft-delete join model OwnerMark to tags that are soft-delete records themselves; the link
+	// and the tag are marked independently, so all four combinations occur
+	markLinks map[int64][]markLink
+}
+
+type markLink struct {
+	Tag        int64 // s_tags id: 1..3 live, 101..103 soft-deleted
+	LinkMarked bool  // the owner_marks row is soft-deleted
+}
+
+// marksVisible: the tags a lookup through Marks has to deliver - scoped: live tags behind live links (a marked link
+// and a marked tag do not exist); unscoped: every linked tag
+func (d assocData) marksVisible(o int64, unscoped bool) []int64 {
+	out := []int64{}
+	for _, l := range d.markLinks[o] {
+		if unscoped || (!l.LinkMarked && l.Tag < twinOff) {
+			out = append(out, l.Tag)
+		}
+	}
+	return pred.SortIDs(out)
 }
 
 func loadAssoc(r *core.Rand) assocData {
@@ -721,7 +741,7 @@ func loadAssoc(r *core.Rand) assocData {
 		_, err := H.SQL.Exec("DELETE FROM " + t)
 		must(err)
 	}
-	d := assocData{owners: r.Range(1, 3), liveItems: map[int64][]int64{}, livePet: map[int64]int64{}, liveTags: map[int64][]int64{}, liveBoss: map[int64]int64{}}
+	d := assocData{owners: r.Range(1, 3), liveItems: map[int64][]int64{}, livePet: map[int64]int64{}, liveTags: map[int64][]int64{}, liveBoss: map[int64]int64{}, markLinks: map[int64][]markLink{}}
 	// bosses: 1,2 live ; 101,102 soft-deleted
 	for _, id := range []int64{1, 2} {
 		_, err := H.SQL.Exec("INSERT INTO s_bosses(id,v,deleted_at) VALUES (?,?,NULL),(?,?,?)", id, id*10, id+twinOff, id*10, delTime)
@@ -771,6 +791,20 @@ func loadAssoc(r *core.Rand) assocData {
 		// marks: owner o is linked to tag 1 and 2 by live links and to tag 3 by a link that is marked already
 		_, err = H.SQL.Exec("INSERT INTO owner_marks(owner_id,s_tag_id,deleted_at) VALUES (?,1,NULL),(?,2,NULL),(?,3,?)", o, o, o, delTime)
 		must(err)
+		d.markLinks[o] = []markLink{{1, false}, {2, false}, {3, true}}
+		// ... and to each soft-deleted tag by no link, a live link, or a marked link
+		for t := int64(1) + twinOff; t <= 3+twinOff; t++ {
+			switch r.Intn(3) {
+			case 1:
+				_, err = H.SQL.Exec("INSERT INTO owner_marks(owner_id,s_tag_id,deleted_at) VALUES (?,?,NULL)", o, t)
+				must(err)
+				d.markLinks[o] = append(d.markLinks[o], markLink{t, false})
+			case 2:
+				_, err = H.SQL.Exec("INSERT INTO owner_marks(owner_id,s_tag_id,deleted_at) VALUES (?,?,?)", o, t, delTime)
+				must(err)
+				d.markLinks[o] = append(d.markLinks[o], markLink{t, true})
+			}
+		}
 	}
 	return d
 }
@@ -778,7 +812,25 @@ func loadAssoc(r *core.Rand) assocData {
 var assocPaths = []string{"PreloadItems", "PreloadItemsCond", "PreloadNested", "PreloadAll", "PreloadPet", "PreloadTags", "JoinsBoss", "InnerJoinsBoss", "JoinsPet",
 	"AssocFindItems", "AssocCountItems", "AssocFindTags", "AssocCountTags", "AssocFindPet", "PreloadUnscoped", "UnscopedJoinsBoss", "UnscopedInnerJoinsBoss", "UnscopedJoinsPet", "JoinsPetCond", "JoinsBossCond",
 	"JoinsPreloadBelow", "UnscopedJoinsPreloadBelow", "UnscopedPreloadNestedBelow",
-	"UnscopedAssocFindItems", "UnscopedAssocCountItems", "UnscopedAssocFindPet", "UnscopedAssocFindTags", "UnscopedAssocCountTags"}
+	"UnscopedAssocFindItems", "UnscopedAssocCountItems", "UnscopedAssocFindPet", "UnscopedAssocFindTags", "UnscopedAssocCountTags",
+	// many2many through a soft-delete JOIN MODEL to a soft-delete target: links and targets are marked independently
+	"AssocFindMarks", "AssocCountMarks", "AssocFindMarksCond", "AssocCountMarksCond", "PreloadMarks", "PreloadMarksCond", "UnscopedAssocFindMarks", "UnscopedAssocCountMarks", "UnscopedPreloadMarks",
+	// association lookups with the caller's own (always-true) conditions
+	"AssocFindItemsCond", "AssocFindTagsCond", "AssocCountItemsCond"}
+
+// alwaysTrue: a condition over the column v (>= 0 in every child row) that holds for every row, in a form whose
+// top-level OR / NOT has to be grouped before the soft-delete filter is AND-ed to it
+func alwaysTrue(r *core.Rand) (string, []interface{}) {
+	switch r.Intn(4) {
+	case 0:
+		return "v >= ? OR v < ?", []interface{}{0, 0}
+	case 1:
+		return "v < ? OR v >= ?", []interface{}{0, 0}
+	case 2:
+		return "NOT v < ? OR v = ?", []interface{}{0, -1}
+	}
+	return "v >= ?", []interface{}{0}
+}
 
 func itemIDs(xs []SItem) []int64 {
 	out := make([]int64, len(xs))
@@ -986,9 +1038,16 @@ func runAssoc(c *core.Ctx, path string, d assocData) (problems []string) {
 	}
 	var owners []Owner
 	switch path {
-	case "PreloadItems", "PreloadItemsCond", "PreloadNested", "PreloadAll", "PreloadPet", "PreloadTags", "PreloadUnscoped":
+	case "PreloadItems", "PreloadItemsCond", "PreloadNested", "PreloadAll", "PreloadPet", "PreloadTags", "PreloadUnscoped", "PreloadMarks", "PreloadMarksCond", "UnscopedPreloadMarks":
 		db := root
 		switch path {
+		case "PreloadMarks":
+			db = db.Preload("Marks")
+		case "PreloadMarksCond":
+			q, args := alwaysTrue(c.R)
+			db = db.Preload("Marks", append([]interface{}{q}, args...)...)
+		case "UnscopedPreloadMarks":
+			db = db.Unscoped().Preload("Marks")
 		case "PreloadItems":
 			db = db.Preload("Items")
 		case "PreloadItemsCond":
@@ -1045,6 +1104,12 @@ func runAssoc(c *core.Ctx, path string, d assocData) (problems []string) {
 			}
 			if path == "PreloadTags" || path == "PreloadAll" {
 				eq("Tags", o.ID, tagIDs(o.Tags), append([]int64(nil), d.liveTags[o.ID]...))
+			}
+			if path == "PreloadMarks" || path == "PreloadMarksCond" || path == "PreloadAll" {
+				eq("Marks (links "+fmt.Sprintf("%+v", d.markLinks[o.ID])+")", o.ID, tagIDs(o.Marks), d.marksVisible(o.ID, false))
+			}
+			if path == "UnscopedPreloadMarks" {
+				eq("Marks under Unscoped (links "+fmt.Sprintf("%+v", d.markLinks[o.ID])+")", o.ID, tagIDs(o.Marks), d.marksVisible(o.ID, true))
 			}
 		}
 	case "JoinsBoss", "InnerJoinsBoss":
@@ -1295,6 +1360,61 @@ func runAssoc(c *core.Ctx, path string, d assocData) (problems []string) {
 				if n != int64(len(d.liveTags[o])) {
 					add("Association(Tags).Count of owner %d = %d, live %d", o, n, len(d.liveTags[o]))
 				}
+			case "AssocFindMarks", "AssocFindMarksCond", "UnscopedAssocFindMarks":
+				var tags []STag
+				db, uns, what := root, false, "Association(Marks).Find"
+				if path == "UnscopedAssocFindMarks" {
+					db, uns, what = root.Unscoped(), true, "Unscoped Association(Marks).Find"
+				}
+				var conds []interface{}
+				if path == "AssocFindMarksCond" {
+					q, args := alwaysTrue(c.R)
+					conds = append([]interface{}{q}, args...)
+					what += fmt.Sprintf("(%q)", q)
+				}
+				if err := db.Model(&ow).Association("Marks").Find(&tags, conds...); err != nil {
+					add("error: %v", err)
+					continue
+				}
+				eq(what+" (links "+fmt.Sprintf("%+v", d.markLinks[o])+")", o, tagIDs(tags), d.marksVisible(o, uns))
+			case "AssocCountMarks", "AssocCountMarksCond", "UnscopedAssocCountMarks":
+				db, uns := root, false
+				if path == "UnscopedAssocCountMarks" {
+					db, uns = root.Unscoped(), true
+				}
+				db = db.Model(&ow)
+				what := path
+				if path == "AssocCountMarksCond" {
+					q, args := alwaysTrue(c.R)
+					db = db.Where(q, args...)
+					what += fmt.Sprintf(" Where(%q)", q)
+				}
+				n := db.Association("Marks").Count()
+				if w := d.marksVisible(o, uns); n != int64(len(w)) {
+					add("%s: Association(Marks).Count of owner %d = %d, want %d: the linked tags this handle sees are %v (links %+v; tags 1..3 live, 101..103 soft-deleted)", what, o, n, len(w), w, d.markLinks[o])
+				}
+			case "AssocFindItemsCond":
+				var items []SItem
+				q, args := alwaysTrue(c.R)
+				if err := root.Model(&ow).Association("Items").Find(&items, append([]interface{}{q}, args...)...); err != nil {
+					add("error: %v", err)
+					continue
+				}
+				eq(fmt.Sprintf("Association(Items).Find(%q)", q), o, itemIDs(items), append([]int64(nil), d.liveItems[o]...))
+			case "AssocCountItemsCond":
+				q, args := alwaysTrue(c.R)
+				n := root.Model(&ow).Where(q, args...).Association("Items").Count()
+				if n != int64(len(d.liveItems[o])) {
+					add("Model(&owner).Where(%q).Association(Items).Count of owner %d = %d, live %d", q, o, n, len(d.liveItems[o]))
+				}
+			case "AssocFindTagsCond":
+				var tags []STag
+				q, args := alwaysTrue(c.R)
+				if err := root.Model(&ow).Association("Tags").Find(&tags, append([]interface{}{q}, args...)...); err != nil {
+					add("error: %v", err)
+					continue
+				}
+				eq(fmt.Sprintf("Association(Tags).Find(%q)", q), o, tagIDs(tags), append([]int64(nil), d.liveTags[o]...))
 			case "UnscopedAssocFindItems":
 				// association lookups through an Unscoped handle: the marked rows are visible again
 				var items []SItem
@@ -1457,7 +1577,7 @@ var Engine = &core.Engine{
 	Level: "exploration",
 	Rule: "twin tables: random live rows (0..8) each with a soft-deleted twin of identical user columns, in one of two key layouts chosen per case (twins above the live rows, or twins BELOW them so that whatever takes the first record by primary key meets the marked row first); chains of 0..3 Where/Not/Or units (C02 generator, id-free, leading Or included, hostile renderings in 2 of 3 cases) x 29 read/write paths (Find, inline, First/Last/Take, Count, Pluck, Scan, Rows, FindInBatches, Count-then-Find / Count-then-Pluck on one query value, Update(s), UpdateColumn, Delete + repeated Delete, Unscoped Find/Count/Update/Delete/First/Last, statements nested in an Unscoped FindInBatches, " +
 		"FirstOrInit and FirstOrCreate with and without Assign / Attrs (map or struct), scoped and Unscoped (Unscoped first or last in the chain): the record found is the lowest key the handle sees and the update gorm issues for Assign stores the value in exactly that record), " +
-		"plus a battery (Find, Count, Unscoped Find, Update, Delete, repeated Delete, Unscoped Delete, FirstOrCreate+Assign scoped and Unscoped under 1..2 condition units) on one of seven models that declare the soft-delete field differently (pointer field, anonymous embedded struct / pointer struct, embedded with prefix, renamed column, leading column, zeroValue tag), plus 28 association read paths (Joins with a handle of always-true ON conditions mixing Where/Or/Not forms; Preload plain/cond/nested/all/has-one/many2many/unscoped, Joins/InnerJoins belongs-to, Joins has-one, the same joins under Unscoped, Preload below Joins, Association Find/Count scoped and through an Unscoped handle) over random owner graphs whose children all have soft-deleted twins, " +
+		"plus a battery (Find, Count, Unscoped Find, Update, Delete, repeated Delete, Unscoped Delete, FirstOrCreate+Assign scoped and Unscoped under 1..2 condition units) on one of seven models that declare the soft-delete field differently (pointer field, anonymous embedded struct / pointer struct, embedded with prefix, renamed column, leading column, zeroValue tag), plus 40 association read paths (Joins with a handle of always-true ON conditions mixing Where/Or/Not forms; Preload plain/cond/nested/all/has-one/many2many/unscoped, Joins/InnerJoins belongs-to, Joins has-one, the same joins under Unscoped, Preload below Joins, Association Find/Count scoped and through an Unscoped handle; Association Find with inline conditions and Count below Model(..).Where(..) using an always-true condition with a top-level OR / NOT; and Association Find/Count (plain, with such a condition, through an Unscoped handle) and Preload (plain, with a condition, under Unscoped) of Marks, a many2many whose JOIN MODEL, registered with SetupJoinTable, carries a soft-delete field while the target is a soft-delete model too: link rows and tags are marked independently by raw SQL, per owner two live links and one marked link to live tags and for each soft-deleted tag no link, a live link or a marked link, and a scoped lookup has to deliver exactly the live tags behind live links, an Unscoped one every linked tag) over random owner graphs whose children all have soft-deleted twins, " +
 		"plus one graph-consuming write per case: Select(relations).Delete(&owner), Delete/Clear of links with a soft-delete join model, a deleting hook under PropagateUnscoped, or (1 in 3) an association-mode write = relation (has-many Items, has-one Pet, belongs-to Boss) x Clear / Delete(named rows: the owner's live or marked ones, or another owner's) / Replace(one live row kept) x handle scoped or db.Unscoped() x association detach mode or Association.Unscoped() mode, compared cell by cell with the rows the handle sees; distinct = (op:form per unit, path) resp. (path, graph sizes) resp. (relation/op/handle/mode, owners); non-trivial = the chain matches at least one live row (so it also matches a twin), resp. the association write had rows to touch",
 	Assumptions: []string{
 		"conditions never mention the primary key, so a twin matches exactly when its live row does",
@@ -1466,6 +1586,7 @@ var Engine = &core.Engine{
 		"FirstOrCreate when no row matches at all (marked or not): only 'one row is created' is demanded when the call succeeds, the created values and errors of that path are not this property's subject; with an Or in the chain only 'the found record holds the assigned value' is demanded, not that no other row does (how the record's key combines with the OR group is C02's reading)",
 		"db.Unscoped() (the statement's Unscoped) and Association(..).Unscoped() (delete the associated records instead of taking the key away) are independent switches; the record handed to an association Replace is not examined (saving it is C10/C11's subject), belongs-to Replace with a new target is not generated, and for a belongs-to owner row the handle does not see the fate of its old target under Association.Unscoped() is not examined",
 		"the association graph keeps one key layout (twins above the live rows)",
+		"Marks (soft-delete join model): Joins on a many2many relation is not supported by gorm and not generated; under db.Unscoped() lookups and preloads are expected to see every link row and every tag (both filters lifted together), a handle that lifts only one of the two filters (Association(..).Unscoped(), a preload callback calling Unscoped) is not generated for this relation; conditions handed to association lookups only mention the target's column v",
 	},
 	Cases: func(tier string) int {
 		if tier == "thorough" {
